@@ -35,6 +35,7 @@ Section C04.
   Hypothesis Hfp : v_fp_exact v = true.
   Hypothesis Hts : v_ts_exact v = true.
   Hypothesis Hlist : v_listjson_dry v = true.
+  Hypothesis Hdfg : v_dry_fail_guard v = true.
   Hypothesis Hinj : forall a b, Hx a = Hx b -> a = b.
 
   Notation step := (step matchb H Hx).
@@ -97,8 +98,8 @@ Section C04.
       assert (Hrun : forall mm, (mm = Run \/ mm = Force \/ mm = Dry) -> m = mm ->
                 run_task matchb H Hx v t0 s mm tid t oc = (s', x) -> ok = true /\ Inv04 p s' g').
       { intros mm Hmm -> Er.
-        pose proof (run_task_summary matchb H Hx v Hsafe Hfp Hts _ _ _ _ _ _ _ _ Hsrc Hm Hmm Er) as Sm.
-        destruct Sm as [Hnf Hup -> ->|Hd Hup Hss ->|Hnd Hup Hr Hnone Hoth|Hnd Hup -> Hrec Hoth].
+        pose proof (run_task_summary matchb H Hx v Hsafe Hfp Hts Hdfg _ _ _ _ _ _ _ _ Hsrc Hm Hmm Er) as Sm.
+        destruct Sm as [Hnf Hup -> ->|Hd Hup Hss Hrd|Hnd Hup Hr Hnone Hoth|Hnd Hup -> Hrec Hoth].
         - (* skipped: justified by the record *)
           cbn [is_skipped] in Ec.
           assert (Hat : is_attempt mm RSkipped = false) by (destruct mm; reflexivity).
@@ -107,7 +108,7 @@ Section C04.
           apply andb_true_iff in Hup. destruct Hup as [Hrec Hgen].
           apply str_eq_opt_true in Hrec. destruct (Hinv _ _ _ Hn Hrec) as [fp0 [Ed Hl]].
           apply Hinj in Ed. subst fp0. rewrite Hl, Hgen in Ec. inversion Ec; subst. auto.
-        - subst mm. cbn in Ec. inversion Ec; subst. split; auto. eapply inv04_same_store; eauto.
+        - subst mm. destruct Hrd as [-> | ->]; cbn in Ec; inversion Ec; subst; (split; [reflexivity | eapply inv04_same_store; eauto]).
         - assert (Hat : is_attempt mm x = true).
           { destruct Hmm as [->|[->| ->]]; try congruence; destruct Hr as [->|[->| ->]]; reflexivity. }
           assert (Hsk : is_skipped x = false) by (destruct Hr as [->|[->| ->]]; reflexivity).
